@@ -1,26 +1,7 @@
-"""py2lean.targets -- what is traced, and how.
-
-Every entry regenerates one Lean model from /repo's current working tree.
-Groups let a check regenerate only what its property needs."""
-from .trace import trace_solver, trace_init, trace_func
-
-TARGETS = []
-
-
-def target(name, groups, deriv=None, second=(), floats=True, corr=None):
-    def deco(fn):
-        TARGETS.append(dict(name=name, groups=set(groups), build=fn, deriv=deriv, second=tuple(second),
-                            floats=floats, corr=corr))
-        return fn
-    return deco
-
-
-def by_name(name):
-    for t in TARGETS:
-        if t['name'] == name:
-            return t
-    raise KeyError(name)
-
+"""Coggeshall family, Noh, Noh2: closed forms whose constructor only validates."""
+from . import target
+from ..trace import trace_solver, trace_init, trace_func
+from ..trace import trace_solver, trace_init, trace_func
 
 # --------------------------------------------------------------------------
 # Coggeshall family, Noh, Noh2: closed forms, constructor only validates
